@@ -1,6 +1,6 @@
 """C15 -- the same text gives the same result however it is supplied."""
 import io
-from vfy.lemma import lemma, P
+from vfy.lemma import lemma, P, give_up
 from vfy.lemmas.common import S, cp_md, all_ok, all_in, ks, ALPH14, by, fixed
 from mistletoe import block_token as bt
 
@@ -61,6 +61,8 @@ def d1_norm(c1: int, c2: int, c3: int, c4: int, c5: int) -> bool:
         bt.Document(FakeFile(s))
     finally:
         bt.tokenize = orig
+    if not seen:
+        give_up('block_token.tokenize was not called by Document.__init__')
     for x in seen[1:]:
         if x != seen[0]:
             return False
